@@ -49,7 +49,7 @@ def parseField (s : String) : Option FieldDecl :=
 def parseDecl (s : String) : Option TypeDecl :=
   match s.splitOn ":" with
   | [k, n, impls, fields, values] => do
-    let kind ← (match k with | "i" => some Kind.iface | "m" => some Kind.model | "e" => some Kind.enum | _ => none)
+    let kind ← (match k with | "i" => some Kind.iface | "m" => some Kind.model | "e" => some Kind.enum | "r" => some Kind.root | _ => none)
     let fs ← if fields = "" then some [] else (fields.splitOn ",").mapM parseField
     pure { kind := kind, name := ← ofHex n, impls := ← hexList impls, fields := fs, values := ← hexList values }
   | _ => none
